@@ -17,7 +17,10 @@
           reused slots; `decide` witnesses for the reader before the fix), t-digest centroids, uniq state; percentile / uniq
           result columns decoded block by block through one column object: rows the reader kept from earlier blocks are
           never changed by later blocks (`refcol_roundtrip`, `refcol_stable`; `decide` witness for a Reset that keeps slots).
-  Part 2  one (key, string-top) value: count / sum / sum of squares / min / max after any list of valid contributions.
+  Part 2  one (key, string-top) value: count / sum / sum of squares / min / max after any list of valid contributions; the
+          hosts: ONE restoration function for the max / min / max-count blocks of MergeWithTL2 (`restoreHost_*`, `hosts_spec`),
+          the min (max) host of a merged value is the host a contribution holding that min (max) names (`fold_hosts`), the
+          max-count host is named by a counted contribution (`fold_cnt_hosts`); `decide` witness for a slip between the blocks.
   Part 3  the shard map: a received row changes exactly the values it addresses (`row_is_merge`), every (key, top) is written
           once per aggregator bucket (`one_row_per_key`), the key columns read back (injective).
   Part 4  the sketch is exact below the limit through MergeRead -> MarshallAppend -> ReadFrom.
@@ -639,6 +642,227 @@ theorem fold_minmax (cs : List (TLV × Tag)) (h : ∀ c ∈ cs, OkTLV c.1) (hs :
   · rcases b3 with ⟨f, _⟩ | e
     · exact absurd f (by decide)
     · exact e
+
+/-! ### hosts: one restoration function for the three parallel blocks, and the hosts of a merged value -/
+
+/-- neither field present: the default (agent host for max; the restored max host for min / max-count) -/
+theorem restoreHost_absent (subst : Bool) (i : Int) (s probe : Bytes) (dflt host : Tag) :
+    restoreHost subst false false i s probe dflt host = dflt := by simp [restoreHost]
+
+/-- a field present and the host not empty: the host as sent (the emptiness test reads the block's OWN string) -/
+theorem restoreHost_explicit (subst setI setS : Bool) (i : Int) (s : Bytes) (dflt host : Tag)
+    (hset : (setI || setS) = true) (hne : (Tag.mk i s).empty = false) :
+    restoreHost subst setI setS i s s dflt host = ⟨i, s⟩ := by
+  unfold restoreHost
+  have h1 : (!setI && !setS) = false := by cases setI <;> cases setS <;> simp_all
+  have h2 : (i == 0 && s.isEmpty) = false := by simpa [Tag.empty] using hne
+  simp [h1, Bool.and_assoc, h2]
+
+/-- a field present, the host empty: the sending agent's own host (min / max-count blocks) -/
+theorem restoreHost_own (setI setS : Bool) (i : Int) (s : Bytes) (dflt host : Tag)
+    (hset : (setI || setS) = true) (he : (Tag.mk i s).empty = true) :
+    restoreHost true setI setS i s s dflt host = host := by
+  unfold restoreHost
+  have h1 : (!setI && !setS) = false := by cases setI <;> cases setS <;> simp_all
+  have h2 : (i == 0 && s.isEmpty) = true := by simpa [Tag.empty] using he
+  simp [h1, Bool.and_assoc, h2]
+
+/-- … hence a restored min / max-count host is never empty when the agent's host and the restored max host are not:
+    one statement for both blocks (and for any further block built from `restoreHost true … s s`) -/
+theorem restoreHost_not_empty (setI setS : Bool) (i : Int) (s : Bytes) (dflt host : Tag)
+    (hd : dflt.empty = false) (hh : host.empty = false) :
+    (restoreHost true setI setS i s s dflt host).empty = false := by
+  by_cases hset : (setI || setS) = true
+  · by_cases he : (Tag.mk i s).empty = true
+    · rw [restoreHost_own setI setS i s dflt host hset he]; exact hh
+    · have hf : (Tag.mk i s).empty = false := by simpa using he
+      rw [restoreHost_explicit true setI setS i s dflt host hset hf]; exact hf
+  · have : setI = false ∧ setS = false := by cases setI <;> cases setS <;> simp_all
+    rw [this.1, this.2, restoreHost_absent]; exact hd
+
+/-- the three blocks of MergeWithTL2 in protocol terms (statshouse.multiValue): max host absent = the sending agent's host;
+    min host / max-count host absent = the max host, present but empty = the sending agent's own host, else as sent -/
+theorem hosts_spec (t : TLV) (host : Tag) :
+    tlMaxHost t host = (if !bit t.mask Gen.C03.bitMaxHostTag && !bit t.mask Gen.C03.bitMaxHostStag then host
+                        else ⟨t.maxHostTag, t.maxHostStag⟩) ∧
+    tlMinHost t host = (if !bit t.mask Gen.C03.bitMinHostTag && !bit t.mask Gen.C03.bitMinHostStag then tlMaxHost t host
+                        else if (Tag.mk t.minHostTag t.minHostStag).empty then host else ⟨t.minHostTag, t.minHostStag⟩) ∧
+    tlCntHost t host = (if !bit t.mask Gen.C03.bitCntHostTag && !bit t.mask Gen.C03.bitCntHostStag then tlMaxHost t host
+                        else if (Tag.mk t.cntHostTag t.cntHostStag).empty then host else ⟨t.cntHostTag, t.cntHostStag⟩) := by
+  refine ⟨?_, ?_, ?_⟩
+  · simp [tlMaxHost, restoreHost]
+  · simp [tlMinHost, tlMinHostV, restoreHost, Tag.empty]
+  · simp [tlCntHost, restoreHost, Tag.empty]
+
+/-- min / max-count host of a contribution is never empty when the agent's host and the contribution's max host are not -/
+theorem min_cnt_host_not_empty (t : TLV) (host : Tag) (hh : host.empty = false) (hm : (tlMaxHost t host).empty = false) :
+    (tlMinHost t host).empty = false ∧ (tlCntHost t host).empty = false :=
+  ⟨restoreHost_not_empty _ _ _ _ _ _ hm hh, restoreHost_not_empty _ _ _ _ _ _ hm hh⟩
+
+theorem addCounterHost_hosts (s : IV) (c : Int) (h : Tag) :
+    (addCounterHost s c h).minHost = s.minHost ∧ (addCounterHost s c h).maxHost = s.maxHost := by
+  unfold addCounterHost
+  split
+  · simp
+  · split <;> simp
+
+/-- one step on the hosts: they move together with min / max -/
+theorem step_hosts (m : MV) (t : TLV) (host : Tag) (h : OkTLV t) :
+    (mergeTL2 m t host).1.v.minHost =
+      (if hasValue t then (if takesMin m.v t.vmin then tlMinHost t host else m.v.minHost) else m.v.minHost) ∧
+    (mergeTL2 m t host).1.v.maxHost =
+      (if hasValue t then (if takesMax m.v (tlMax t) then tlMaxHost t host else m.v.maxHost) else m.v.maxHost) := by
+  rw [mergeTL2_iv m t host h]
+  have hr := addCounterHost_rest m.v (tlCounter t) (tlCntHost t host)
+  have hh := addCounterHost_hosts m.v (tlCounter t) (tlCntHost t host)
+  by_cases hv : hasValue t = true
+  · simp only [hv, if_true, mergeAgg, takesMin, takesMax, hr.2.2.1, hr.2.2.2.1, hr.2.2.2.2, hh.1, hh.2]
+    exact ⟨rfl, rfl⟩
+  · simp only [hv, Bool.false_eq_true, if_false, hh.1, hh.2, and_self]
+
+theorem fold_hosts_gen : ∀ (cs : List (TLV × Tag)) (m : MV), (∀ c ∈ cs, OkTLV c.1) → 0 ≤ m.v.cnt →
+    ((m.v.set = true ∧ (foldTL m cs).v.vmin = m.v.vmin ∧ (foldTL m cs).v.minHost = m.v.minHost) ∨
+      (m.v.set = false ∧ ¬ (∃ c ∈ cs, hasValue c.1 = true) ∧ (foldTL m cs).v.minHost = m.v.minHost) ∨
+      ∃ c ∈ cs, hasValue c.1 = true ∧ (foldTL m cs).v.vmin = c.1.vmin ∧ (foldTL m cs).v.minHost = tlMinHost c.1 c.2) ∧
+    ((m.v.set = true ∧ (foldTL m cs).v.vmax = m.v.vmax ∧ (foldTL m cs).v.maxHost = m.v.maxHost) ∨
+      (m.v.set = false ∧ ¬ (∃ c ∈ cs, hasValue c.1 = true) ∧ (foldTL m cs).v.maxHost = m.v.maxHost) ∨
+      ∃ c ∈ cs, hasValue c.1 = true ∧ (foldTL m cs).v.vmax = tlMax c.1 ∧ (foldTL m cs).v.maxHost = tlMaxHost c.1 c.2) := by
+  intro cs
+  induction cs with
+  | nil =>
+    intro m _ _
+    simp only [foldTL, List.foldl_nil]
+    cases hs : m.v.set <;> simp
+  | cons c cs ih =>
+    intro m h hm
+    have hc := h c (List.mem_cons_self ..)
+    obtain ⟨s1, _, _, s4⟩ := step_sums m c.1 c.2 hc hm
+    obtain ⟨mn, mx⟩ := step_min m c.1 c.2 hc
+    obtain ⟨hn, hx⟩ := step_hosts m c.1 c.2 hc
+    have hm' : 0 ≤ (mergeTL2 m c.1 c.2).1.v.cnt := by rw [s1]; have := hc.1; omega
+    have hfold : foldTL m (c :: cs) = foldTL (mergeTL2 m c.1 c.2).1 cs := rfl
+    rw [hfold]
+    obtain ⟨A, B⟩ := ih (mergeTL2 m c.1 c.2).1 (fun x hx => h x (List.mem_cons_of_mem _ hx)) hm'
+    generalize (foldTL (mergeTL2 m c.1 c.2).1 cs).v = f at *
+    generalize (mergeTL2 m c.1 c.2).1.v = m1 at *
+    by_cases hv : hasValue c.1 = true
+    · simp only [hv, if_true] at mn mx hn hx
+      have hset : m1.set = true := by rw [s4, hv]; simp
+      constructor
+      · rcases A with ⟨_, e1, e2⟩ | ⟨f1, _⟩ | ⟨x, hx', hxv, e1, e2⟩
+        · by_cases ht : takesMin m.v c.1.vmin = true
+          · right; right
+            exact ⟨c, List.mem_cons_self .., hv, by rw [e1, mn]; simp [ht], by rw [e2, hn]; simp [ht]⟩
+          · have hms : m.v.set = true := by unfold takesMin at ht; cases hq : m.v.set <;> simp_all
+            left
+            exact ⟨hms, by rw [e1, mn]; simp [ht], by rw [e2, hn]; simp [ht]⟩
+        · rw [hset] at f1; cases f1
+        · right; right; exact ⟨x, List.mem_cons_of_mem _ hx', hxv, e1, e2⟩
+      · rcases B with ⟨_, e1, e2⟩ | ⟨f1, _⟩ | ⟨x, hx', hxv, e1, e2⟩
+        · by_cases ht : takesMax m.v (tlMax c.1) = true
+          · right; right
+            exact ⟨c, List.mem_cons_self .., hv, by rw [e1, mx]; simp [ht], by rw [e2, hx]; simp [ht]⟩
+          · have hms : m.v.set = true := by unfold takesMax at ht; cases hq : m.v.set <;> simp_all
+            left
+            exact ⟨hms, by rw [e1, mx]; simp [ht], by rw [e2, hx]; simp [ht]⟩
+        · rw [hset] at f1; cases f1
+        · right; right; exact ⟨x, List.mem_cons_of_mem _ hx', hxv, e1, e2⟩
+    · have hvf : hasValue c.1 = false := by simpa using hv
+      simp only [hvf, Bool.false_eq_true, if_false] at mn mx hn hx
+      have hset : m1.set = m.v.set := by rw [s4, hvf]; simp
+      rw [hset, mn, hn] at A
+      rw [hset, mx, hx] at B
+      constructor
+      · rcases A with l | ⟨f1, f2, f3⟩ | ⟨x, hx', hxv, e⟩
+        · exact Or.inl l
+        · right; left
+          refine ⟨f1, ?_, f3⟩
+          rintro ⟨x, hx', hxv⟩
+          rcases List.mem_cons.mp hx' with rfl | hx'
+          · rw [hvf] at hxv; cases hxv
+          · exact f2 ⟨x, hx', hxv⟩
+        · right; right; exact ⟨x, List.mem_cons_of_mem _ hx', hxv, e⟩
+      · rcases B with l | ⟨f1, f2, f3⟩ | ⟨x, hx', hxv, e⟩
+        · exact Or.inl l
+        · right; left
+          refine ⟨f1, ?_, f3⟩
+          rintro ⟨x, hx', hxv⟩
+          rcases List.mem_cons.mp hx' with rfl | hx'
+          · rw [hvf] at hxv; cases hxv
+          · exact f2 ⟨x, hx', hxv⟩
+        · right; right; exact ⟨x, List.mem_cons_of_mem _ hx', hxv, e⟩
+
+/-- C03 "min, max … equal to the merge of every contribution", the hosts: the host written next to the minimum (maximum) of
+    a row is the host that a contribution holding exactly that minimum (maximum) names for it — restored by `restoreHost`
+    from what the agent sent (own host / max host / explicit id or string). -/
+theorem fold_hosts (cs : List (TLV × Tag)) (h : ∀ c ∈ cs, OkTLV c.1) (hs : (foldTL MV.zero cs).v.set = true) :
+    (∃ c ∈ cs, hasValue c.1 = true ∧ (foldTL MV.zero cs).v.vmin = c.1.vmin ∧ (foldTL MV.zero cs).v.minHost = tlMinHost c.1 c.2) ∧
+    (∃ c ∈ cs, hasValue c.1 = true ∧ (foldTL MV.zero cs).v.vmax = tlMax c.1 ∧ (foldTL MV.zero cs).v.maxHost = tlMaxHost c.1 c.2) := by
+  obtain ⟨A, B⟩ := fold_hosts_gen cs MV.zero h (by decide)
+  have hany := (fold_sums cs MV.zero h (by decide)).2.2.2
+  rw [hs] at hany
+  have hex : ∃ c ∈ cs, hasValue c.1 = true := by
+    have : cs.any (fun c => hasValue c.1) = true := by simpa [MV.zero, IV.zero] using hany.symm
+    obtain ⟨c, hc, hv⟩ := List.any_eq_true.mp this
+    exact ⟨c, hc, hv⟩
+  constructor
+  · rcases A with ⟨f, _⟩ | ⟨_, f, _⟩ | e
+    · exact absurd f (by decide)
+    · exact absurd hex f
+    · exact e
+  · rcases B with ⟨f, _⟩ | ⟨_, f, _⟩ | e
+    · exact absurd f (by decide)
+    · exact absurd hex f
+    · exact e
+
+/-- the max-count host is a host named by a counted contribution (whatever the random draws) -/
+theorem fold_cnt_hosts : ∀ (cs : List (TLV × Tag)) (m : MV), (∀ c ∈ cs, OkTLV c.1) →
+    ∀ x ∈ (foldTL m cs).v.chosts, x ∈ m.v.chosts ∨ ∃ c ∈ cs, 0 < tlCounter c.1 ∧ x = tlCntHost c.1 c.2 := by
+  intro cs
+  induction cs with
+  | nil => intro m _ x hx; exact Or.inl hx
+  | cons c cs ih =>
+    intro m h x hx
+    have hc := h c (List.mem_cons_self ..)
+    have hfold : foldTL m (c :: cs) = foldTL (mergeTL2 m c.1 c.2).1 cs := rfl
+    rw [hfold] at hx
+    rcases ih _ (fun y hy => h y (List.mem_cons_of_mem _ hy)) x hx with h1 | ⟨y, hy, hp, e⟩
+    · -- x came out of this step
+      have hiv := mergeTL2_iv m c.1 c.2 hc
+      have hch : (mergeTL2 m c.1 c.2).1.v.chosts = (addCounterHost m.v (tlCounter c.1) (tlCntHost c.1 c.2)).chosts := by
+        rw [hiv]; split <;> simp [mergeAgg]
+      rw [hch] at h1
+      unfold addCounterHost at h1
+      split at h1
+      · exact Or.inl h1
+      · rename_i hpos
+        split at h1
+        · simp only [List.mem_singleton] at h1
+          exact Or.inr ⟨c, List.mem_cons_self .., by omega, h1⟩
+        · simp only [addHost] at h1
+          split at h1
+          · exact Or.inl h1
+          · rcases List.mem_append.mp h1 with h1 | h1
+            · exact Or.inl h1
+            · simp only [List.mem_singleton] at h1
+              exact Or.inr ⟨c, List.mem_cons_self .., by omega, h1⟩
+    · exact Or.inr ⟨y, List.mem_cons_of_mem _ hy, hp, e⟩
+
+/-! the seeded slip (`HostV.minSlip`: the emptiness test of the min block reads MaxHostStag) -/
+
+/-- max host an unmapped string "hB", min host present and empty (measured on the agent's own host, id 7) -/
+def slipA : TLV :=
+  { mask := 2 ^ Gen.C03.bitMaxHostStag + 2 ^ Gen.C03.bitMinHostTag, counter := 4, vmin := 0, vmax := 0, sum := 0, sumsq := 0, uniques := [],
+    cents := [], maxHostTag := 0, minHostTag := 0, cntHostTag := 0, maxHostStag := [104, 66], minHostStag := [], cntHostStag := [] }
+/-- min host an unmapped string "hA", max host absent -/
+def slipB : TLV := { slipA with mask := 2 ^ Gen.C03.bitMinHostStag, maxHostStag := [], minHostStag := [104, 65] }
+
+/-- the code: the agent's host is substituted / the string host is kept -/
+example : tlMinHostV .repo slipA ⟨7, []⟩ = ⟨7, []⟩ ∧ tlMinHostV .repo slipB ⟨7, []⟩ = ⟨0, [104, 65]⟩ := by decide
+/-- the slip: (a) the min host is lost (empty), (b) the string min host is replaced by the sending agent's host -/
+example : tlMinHostV .minSlip slipA ⟨7, []⟩ = Tag.none ∧ tlMinHostV .minSlip slipB ⟨7, []⟩ = ⟨7, []⟩ := by decide
+/-- `min_cnt_host_not_empty` is not vacuous on that input and fails for the slip -/
+example : (Tag.mk 7 []).empty = false ∧ (tlMaxHost slipA ⟨7, []⟩).empty = false ∧ (tlMinHostV .minSlip slipA ⟨7, []⟩).empty = true := by decide
 
 /-! ## Part 3 — the shard map -/
 
@@ -1450,6 +1674,15 @@ example : encTag ⟨5, [97]⟩ = encTag ⟨5, []⟩ := by decide
 /-- one row, byte for byte: key B of the witness bucket (host value bits are inputs) -/
 example : (encValue (valueAt (applyRows [] rowsW) kB Tag.none) ⟨hostB, [], 1, 2, 3, []⟩).take 16 =
     [0, 0, 0, 0, 0, 0, 4, 64, 0, 0, 0, 0, 0, 0, 4, 64] := by decide
+
+/-- `fold_hosts` on a witness: two agents (hosts 7 and 8); the first holds the minimum -3 measured on its own host while
+    its maximum was measured on the unmapped string host "hB"; the second names the string host "hA" for its minimum 5 -/
+def hostsW : List (TLV × Tag) :=
+  [ ({ slipA with mask := slipA.mask + 2 ^ Gen.C03.bitValueSet + 2 ^ Gen.C03.bitValueMin, vmin := -3 }, ⟨7, []⟩),
+    ({ slipB with mask := slipB.mask + 2 ^ Gen.C03.bitValueSet + 2 ^ Gen.C03.bitValueMin, vmin := 5 }, ⟨8, []⟩) ]
+example : (∀ c ∈ hostsW, OkTLV c.1) ∧ (foldTL MV.zero hostsW).v.set = true ∧ (foldTL MV.zero hostsW).v.vmin = -3 ∧
+    (foldTL MV.zero hostsW).v.minHost = ⟨7, []⟩ ∧ (foldTL MV.zero hostsW).v.vmax = 5 ∧ (foldTL MV.zero hostsW).v.maxHost = ⟨8, []⟩ ∧
+    (foldTL MV.zero hostsW).v.chosts = [⟨0, [104, 66]⟩, ⟨8, []⟩] := by decide
 
 end Witness
 end SH.C03
